@@ -75,6 +75,51 @@ void harness(void) {
 #else
     __CPROVER_assert(cnt == 1 && hasP, "a complete family compacts to exactly its parent");
 #endif
+#elif defined(FAMILYC)
+    // the complete child family of the CONCRETE parent PCONST (job parameter) in the order rotated by the concrete OFF,
+    // plus NX arbitrary (symbolic) foreign cells of the same resolution that are no children of PCONST and distinct:
+    // the symbolic part is where the foreign cells (and their parents) hash to, i.e. the collision chains they form
+    // with the family's parent slot, and whether they are pentagon children / on pentagon base cells
+    const H3Index P = in_p = ((uint64_t)PCONST);
+    enum { PR = (int)((((uint64_t)PCONST) >> 52) & 15), CR = PR + 1, n = PENT ? 6 : 7, T = n + NX };
+    __CPROVER_assert(spec_valid_cell(P) && (spec_is_pentagon(P) != 0) == (PENT != 0), "job parameter: PCONST is a valid cell of the announced kind");
+    H3Index ch[7] = {0, 0, 0, 0, 0, 0, 0};
+    H3_EXPORT(cellToChildren)(P, CR, ch);
+#ifdef SYMOFF
+    int OFF = in_off = vp_int("in_off");
+    __CPROVER_assume(OFF >= 0 && OFF < n);
+#endif
+    H3Index in[T], out[T + 2], xs[NX + 1];
+    for (int i = 0; i < n; i++) in[i] = ch[(i + OFF) % n];
+    for (int i = 0; i < NX; i++) {
+        uint64_t w = vp_u64_i("in_c", i);
+        xs[i] = in_c[i] = mkcell_from(CR, w);
+        __CPROVER_assume(spec_parent(xs[i], PR) != P);
+        for (int j = 0; j < i; j++) __CPROVER_assume(xs[j] != xs[i]);
+        in[XPOS == 0 ? n + i : i] = xs[i];
+    }
+#if XPOS != 0
+    // foreign cells first, family afterwards
+    for (int i = 0; i < n; i++) in[NX + i] = ch[(i + OFF) % n];
+#endif
+    for (int i = 0; i < T + 2; i++) out[i] = 0;
+    out[0] = out[T + 1] = UINT64_C(0x5a5a5a5a5a5a5a5a);
+    VP_EXCLUDE();
+    H3Error e = H3_EXPORT(compactCells)(in, out + 1, T);
+    __CPROVER_assert(e == E_SUCCESS, "compactCells succeeds on a complete family plus distinct foreign cells");
+    __CPROVER_assert(out[0] == UINT64_C(0x5a5a5a5a5a5a5a5a) && out[T + 1] == UINT64_C(0x5a5a5a5a5a5a5a5a), "no write outside the output array");
+    int cnt = 0, hasP = 0;
+    for (int i = 0; i < T; i++) if (out[1 + i]) { cnt++; if (out[1 + i] == P) hasP++; }
+    VP_WITNESS("familyc");
+    __CPROVER_assert(hasP == 1, "the complete family is replaced by its parent (exactly once)");
+    __CPROVER_assert(cnt == 1 + NX, "output = parent + the foreign cells, nothing else");
+    for (int i = 0; i < NX; i++) { int c = 0; for (int j = 0; j < T; j++) if (out[1 + j] == xs[i]) c++; __CPROVER_assert(c == 1, "every foreign cell is kept exactly once, uncompacted"); }
+    int64_t sz = -1;
+    __CPROVER_assert(H3_EXPORT(uncompactCellsSize)(out + 1, T, CR, &sz) == E_SUCCESS && sz == T, "uncompactCellsSize(compact(S)) == |S|");
+    H3Index back[T + 1]; back[T] = UINT64_C(0x5a5a5a5a5a5a5a5a);
+    __CPROVER_assert(H3_EXPORT(uncompactCells)(out + 1, T, back, T, CR) == E_SUCCESS, "uncompactCells succeeds with the exact capacity");
+    for (int i = 0; i < T; i++) { int c = 0; for (int j = 0; j < T; j++) if (back[j] == in[i]) c++; __CPROVER_assert(c == 1, "uncompact(compact(S)) == S"); }
+    __CPROVER_assert(back[T] == UINT64_C(0x5a5a5a5a5a5a5a5a), "uncompactCells stays within its capacity");
 #elif defined(CAP)
     // two valid cells of RES, target resolution r, capacity cap (symbolic); buffer of exactly cap slots + canary
     H3Index c[2]; c[0] = in_c[0] = mkcell(RES, "in_c"); c[1] = in_c[1] = mkcell(RES, "in_c1");
